@@ -23,6 +23,9 @@ import (
 	"sync"
 	"time"
 
+	"github.com/quic-go/qpack"
+	"github.com/quic-go/quic-go/quicvarint"
+
 	"github.com/imroc/req/v3/verifharness/hk"
 )
 
@@ -56,7 +59,12 @@ func childMain(args []string) {
 		fmt.Fprintln(os.Stderr, "h2 peer:", err)
 		os.Exit(3)
 	}
-	w := &world{reported: map[string]bool{}, peer: peer, h2: h2p, tmp: tmp, metrics: []metrics.Sample{{Name: "/memory/classes/heap/objects:bytes"}}}
+	h3p, err := newH3Peer()
+	if err != nil {
+		fmt.Fprintln(os.Stderr, "h3 peer:", err)
+		os.Exit(3)
+	}
+	w := &world{reported: map[string]bool{}, peer: peer, h2: h2p, h3: h3p, tmp: tmp, metrics: []metrics.Sample{{Name: "/memory/classes/heap/objects:bytes"}}}
 	out := bufio.NewWriter(os.Stdout)
 	enc := json.NewEncoder(out)
 	for _, cs := range cases {
@@ -70,7 +78,7 @@ func childMain(args []string) {
 		out.Flush()
 		var res *Result
 		switch cs.Kind {
-		case "h1", "h2":
+		case "h1", "h2", "h3":
 			res = w.runCase(cs)
 		default:
 			res = runParserCase(cs)
@@ -94,7 +102,7 @@ type childDeath struct {
 
 func runChildren(r *hk.Run, ncases int) (map[int]*Result, []childDeath) {
 	exe, _ := os.Executable()
-	nch := 6
+	nch := 12
 	results := map[int]*Result{}
 	var deaths []childDeath
 	var mu sync.Mutex
@@ -236,7 +244,7 @@ func run(r *hk.Run) {
 		if res.HeapHigh > maxHeap {
 			maxHeap = res.HeapHigh
 		}
-		if cs.Kind != "h1" && cs.Kind != "h2" {
+		if cs.Kind != "h1" && cs.Kind != "h2" && cs.Kind != "h3" {
 			judgeParser(r, cs, res)
 			continue
 		}
@@ -322,7 +330,20 @@ func judgeH1(r *hk.Run, cs *Case, res *Result) {
 		emitted = true
 	}
 	// h1 model case
-	if cs.Kind == "h1" && cs.Model && len(cs.Rounds) == 1 && cs.Rounds[0].End == "fin" && len(cs.Rounds[0].Data) <= 48<<10 && !cs.Opts.Digest && !redirecting(cs, res) {
+	last := len(cs.Rounds) - 1
+	if cs.Pre > 0 {
+		if res.Conns == 1 {
+			r.Count("seq:one-connection")
+		} else {
+			r.Count("seq:several-connections")
+		}
+		for i, po := range res.Pre {
+			if po.RespNil || po.Status != 200 || po.BodyErr != "" {
+				r.Fail(hk.Failure{Sig: "seq-warmup:" + sh, What: fmt.Sprintf("plain exchange %d before the observed one failed", i), Input: cs, Got: po})
+			}
+		}
+	}
+	if cs.Kind == "h1" && cs.Model && last == cs.Pre && cs.Rounds[last].End == "fin" && len(cs.Rounds[last].Data) <= 48<<10 && !cs.Opts.Digest && !redirecting(cs, res) {
 		o := cs.Opts
 		lim := int64(10 << 20)
 		if o.MaxHeader > 0 {
@@ -341,9 +362,23 @@ func judgeH1(r *hk.Run, cs *Case, res *Result) {
 			obs = fmt.Sprintf("(OResp %s %s %s)", hk.CoqZ(int64(res.Status)), hk.CoqBool(res.BodyErr == ""), hk.CoqN(uint64(res.BodyLen)))
 		}
 		coq := fmt.Sprintf("H1Case %s %s %s %s %s %s %s", hk.CoqStr(cs.Method), hk.CoqN(uint64(bufsz)), hk.CoqN(uint64(lim)), hk.CoqN(uint64(bufsz)),
-			hk.CoqBytes(cs.Rounds[0].Data), hk.CoqBool(cmpBody), obs)
+			hk.CoqBytes(cs.Rounds[last].Data), hk.CoqBool(cmpBody), obs)
 		r.Add(hk.Case{Coq: coq, Desc: map[string]interface{}{"kind": "h1", "case": cs, "observed": res}}, "h1|"+key, nontrivial)
 		r.Count("coq:h1")
+		emitted = true
+	}
+	if cs.Kind == "h3" && cs.Model && len(cs.Rounds[0].Data) <= 32<<10 {
+		max := uint64(10 << 20)
+		if cs.Opts.MaxHeader > 0 {
+			max = uint64(cs.Opts.MaxHeader)
+		}
+		obs := "OErr"
+		if !res.RespNil {
+			obs = fmt.Sprintf("(OResp %s true 0%%N)", hk.CoqZ(int64(res.Status)))
+		}
+		coq := fmt.Sprintf("H3Case %s %s %s %s", hk.CoqN(max), h3Oracle(cs.Rounds[0].Data), hk.CoqBytes(cs.Rounds[0].Data), obs)
+		r.Add(hk.Case{Coq: coq, Desc: map[string]interface{}{"kind": "h3", "case": cs, "observed": res}}, "h3|"+key, true)
+		r.Count("coq:h3")
 		emitted = true
 	}
 	if !emitted {
@@ -363,7 +398,7 @@ func cleanHeaderValue(s string) bool {
 // a 3xx with a Location is followed by net/http's client: the final observation is not the
 // scripted stream's
 func redirecting(cs *Case, res *Result) bool {
-	d := bytes.ToLower(cs.Rounds[0].Data)
+	d := bytes.ToLower(cs.Rounds[len(cs.Rounds)-1].Data)
 	return bytes.Contains(d, []byte("location"))
 }
 
@@ -381,3 +416,43 @@ func hashRounds(cs *Case) []byte {
 	return b.Bytes()
 }
 
+// h3Oracle: what quic-go's QPACK decoder makes of every field section a HEADERS frame of the
+// stream announces (walked independently of the library: type, length, payload).
+func h3Oracle(s []byte) string {
+	var entries []string
+	seen := map[string]bool{}
+	pos := 0
+	for pos < len(s) && len(entries) < 64 {
+		t, n, err := quicvarint.Parse(s[pos:])
+		if err != nil {
+			break
+		}
+		pos += n
+		l, n, err := quicvarint.Parse(s[pos:])
+		if err != nil {
+			break
+		}
+		pos += n
+		if l > uint64(len(s)-pos) {
+			break
+		}
+		if t == 1 {
+			blk := s[pos : pos+int(l)]
+			if !seen[string(blk)] {
+				seen[string(blk)] = true
+				fs, derr := qpack.NewDecoder(nil).DecodeFull(blk)
+				v := "None"
+				if derr == nil {
+					var fl []string
+					for _, f := range fs {
+						fl = append(fl, hk.CoqPair(hk.CoqStr(f.Name), hk.CoqStr(f.Value)))
+					}
+					v = "(Some " + hk.CoqList(fl) + ")"
+				}
+				entries = append(entries, hk.CoqPair(hk.CoqBytes(blk), v))
+			}
+		}
+		pos += int(l)
+	}
+	return hk.CoqList(entries)
+}
